@@ -124,7 +124,7 @@ def run(ctx, only=None):
         for f in obs['failures']:
             ctx.violation(f'{f["cell"]}|{job["_client"]}|{f["kind"]}', f'{f["cell"]} {job["_client"]} history={f["history"]}: {f["kind"]}: {f["detail"]}',
                           dict(client=job['_client'], cells=[f['cell']]))
-    if not only and total < 3000:
+    if not only and total < 3000 and not ctx.violations:
         raise HarnessError(f'C08 exploration collapsed: {total} histories')
     ctx.extra['bound'] = 'not-done^k with k<=3 (5 thorough); 64 type-resolution cells'
     ctx.assume('polling runs under a virtual clock; api-core operation futures are trusted')
